@@ -203,6 +203,9 @@ pub enum Op {
     ConnectAgain,
     /// DISCONNECT carrying a long Reason String (v5.0): larger than a small Maximum Packet Size
     DisconnectBig,
+    /// u16 ids: acquire every identifier 1..=65535, expect exhaustion to be reported, release and
+    /// re-acquire one, release everything
+    ExhaustIds,
     /// role Any: play the other side of the protocol on the next connection
     SwapSide,
     /// regulate_for_store on a v5 PUBLISH (alias: 0 none, n = topic + alias, 0x80|n alias only)
@@ -972,6 +975,62 @@ impl Solo {
                 p.rc = Some(0);
                 p.props.push(Prop::ReasonString("the application says goodbye with a rather long explanation of its reasons".into()));
                 self.app_send(&p);
+            }
+            Op::ExhaustIds => {
+                if self.cfg.pid32 || self.w.lenient {
+                    return;
+                }
+                let before = self.w.m.ids.len();
+                let mut got = 0u32;
+                while self.w.m.ids.len() < 65535 && !self.w.failed() {
+                    match self.w.acquire() {
+                        Some(i) => {
+                            self.owned.insert(i);
+                            got += 1;
+                        }
+                        None => break,
+                    }
+                }
+                if self.w.failed() {
+                    return;
+                }
+                if self.w.m.ids.len() != 65535 {
+                    self.w.flag(&["C08"], "not-all-ids-usable", format!("only {} identifiers could be in use simultaneously", self.w.m.ids.len()));
+                    return;
+                }
+                // exhaustion is an error, not a repeated id (checked inside acquire)
+                self.w.acquire();
+                if self.w.failed() {
+                    return;
+                }
+                if self.w.register(40000) || self.w.failed() {
+                    return;
+                }
+                self.w.stats.hit("c08_all_ids_in_use");
+                for id in [40000u32, 1, 65535] {
+                    if self.owned.contains(&id) {
+                        let evs = self.w.release(id);
+                        self.handle(&evs);
+                        self.owned.remove(&id);
+                        if let Some(i) = self.w.acquire() {
+                            if i != id {
+                                self.w.flag(&["C08"], "acquire-skips-the-only-free-id", format!("released {id}, acquire returned {i}"));
+                                return;
+                            }
+                            self.owned.insert(i);
+                        }
+                    }
+                }
+                let mine: Vec<u32> = self.owned.iter().cloned().collect();
+                for id in mine {
+                    if self.w.failed() {
+                        return;
+                    }
+                    let evs = self.w.release(id);
+                    self.handle(&evs);
+                    self.owned.remove(&id);
+                }
+                let _ = (before, got);
             }
             Op::SwapSide => {
                 if self.cfg.role == Role::Any && self.w.m.st == St::Disc && !self.w.want_close {
